@@ -13,11 +13,11 @@ var propertyRules = map[string][]string{
 	"C08": {"RD1", "RD2"},
 	"C09": {"VD7", "VD6", "VD10", "LK4", "DT2", "DT5"},
 	"C10": {"VD1", "LK5", "VD11", "VD12", "VD14"},
-	"C11": {"VD12", "VD13", "VD1", "LK5", "WR1", "WR2", "VD5", "OU3"},
+	"C11": {"VD12", "VD13", "VD15", "VD1", "LK5", "WR1", "WR2", "VD5", "OU3"},
 	"C12": {"DT1", "DT2", "DT3", "DT4", "WR2", "LK6"},
 	"C13": {"LK7", "WR1", "WR3", "WR6"},
 	"C14": {"VD8", "VD7"},
-	"C15": {"RD3"},
+	"C15": {"RD3", "VD5", "VD13"},
 	"C16": {"OU1", "OU2", "OU3", "WR5", "VD10", "VD11"},
 	"C17": {"OU4", "VD12", "DT4", "DT5", "VD13"},
 	"C18": {"ST1", "ST2", "LK1", "LK2", "WR1"},
